@@ -102,6 +102,7 @@ type ED struct {
 	Fwd          []*ED
 	ForwardCount int // definite forwards seen since last revive (C06)
 	BySeek       bool
+	Grace        bool // acknowledged, but the server may not have committed it yet (stalled-server push runs)
 	Round        int // incremented whenever a seek (possibly) re-opened this delivery: a new dead-letter round
 	FwdRound     int // forwarded copies: the source round that produced it
 	everDelivered bool
@@ -315,6 +316,11 @@ func (e *ED) possiblySettled(t1 time.Time) bool {
 	if e.Fuzzy || e.DLMaybe || e.State != stOut {
 		return true
 	}
+	if c := &e.Sub.Cfg; c.fullDL() && e.Seen+e.SeenUnc >= int(c.MaxAttempts) && e.mayDue(t1) {
+		// due for dead-lettering: a fetch the model did not see (streamer, pusher) may have
+		// retired it already
+		return true
+	}
 	return !t1.Before(e.RetLo.Add(-eps))
 }
 
@@ -514,7 +520,7 @@ func (m *Model) Pull(s *MSub, max int, resp []RecvMsg, t0, t1 time.Time) *Violat
 			return viol("C14", "delivered_after_retention", "%v delivered at %v, retention ended by %v", e, t0.Sub(epoch), e.RetHi.Sub(epoch))
 		}
 		// state
-		if !e.Fuzzy {
+		if !e.Fuzzy && !(e.State == stAcked && e.Grace) {
 			switch e.State {
 			case stAcked:
 				p := "C03"
@@ -672,6 +678,10 @@ func (m *Model) Pull(s *MSub, max int, resp []RecvMsg, t0, t1 time.Time) *Violat
 	}
 	// update delivered
 	for _, e := range delivered {
+		if e.State == stAcked && e.Grace {
+			e.Seen++
+			continue
+		}
 		if e.Fuzzy {
 			e.Fuzzy = false
 			e.State = stOut
